@@ -699,6 +699,114 @@ MULTI += [
    ("                            channel.requests.pop();", "                            channel.requests.remove(0);")]),
 ]
 
+# ---- round 10: sound variants of what the round-10 rules reject ------------------------------------------------------------------------------
+MULTI += [
+ ("B.r10.otlp_flush_and_all", ["C07", "C12", "C08"], "emitter/otlp/src/client.rs", [
+   ("""        if let Some((_, ref sender)) = self.otlp_logs {
+            if !emit_batcher::blocking_flush(sender, timeout.saturating_sub(start.elapsed())) {
+                return false;
+            }
+        }
+
+        if let Some((_, ref sender)) = self.otlp_traces {
+            if !emit_batcher::blocking_flush(sender, timeout.saturating_sub(start.elapsed())) {
+                return false;
+            }
+        }
+
+        if let Some((_, ref sender)) = self.otlp_metrics {
+            if !emit_batcher::blocking_flush(sender, timeout.saturating_sub(start.elapsed())) {
+                return false;
+            }
+        }
+
+        true""", """        let mut flushed = true;
+
+        if let Some((_, ref sender)) = self.otlp_logs {
+            flushed &= emit_batcher::blocking_flush(sender, timeout.saturating_sub(start.elapsed()));
+        }
+
+        if let Some((_, ref sender)) = self.otlp_traces {
+            flushed &= emit_batcher::blocking_flush(sender, timeout.saturating_sub(start.elapsed()));
+        }
+
+        if let Some((_, ref sender)) = self.otlp_metrics {
+            flushed &= emit_batcher::blocking_flush(sender, timeout.saturating_sub(start.elapsed()));
+        }
+
+        flushed""")]),
+ ("B.r10.metric_source_hoist", ["C09", "C12"], "emitter/otlp/src/client.rs", [
+   ("""        OtlpMetrics {
+            logs_channel_metrics: self
+                .inner
+                .as_ref()
+                .and_then(|otlp| otlp.otlp_logs.as_ref())
+                .map(|(_, sender)| sender.metric_source()),
+            traces_channel_metrics: self
+                .inner
+                .as_ref()
+                .and_then(|otlp| otlp.otlp_traces.as_ref())
+                .map(|(_, sender)| sender.metric_source()),
+            metrics_channel_metrics: self
+                .inner
+                .as_ref()
+                .and_then(|otlp| otlp.otlp_metrics.as_ref())
+                .map(|(_, sender)| sender.metric_source()),""", """        let inner = self.inner.as_ref();
+
+        OtlpMetrics {
+            logs_channel_metrics: inner
+                .and_then(|otlp| otlp.otlp_logs.as_ref())
+                .map(|(_, sender)| sender.metric_source()),
+            traces_channel_metrics: inner
+                .and_then(|otlp| otlp.otlp_traces.as_ref())
+                .map(|(_, sender)| sender.metric_source()),
+            metrics_channel_metrics: inner
+                .and_then(|otlp| otlp.otlp_metrics.as_ref())
+                .map(|(_, sender)| sender.metric_source()),""")]),
+ ("B.r10.begin_filter_lets", ["C17", "C01", "C05"], "src/macro_hooks.rs", [
+   ("""        FirstDefined(self.when, self.rt.filter())
+            .matches(evt.map_props(|props| props.and_props(&lvl_prop)))""", """        let effective = FirstDefined(self.when, self.rt.filter());
+        let levelled = evt.map_props(|props| props.and_props(&lvl_prop));
+
+        effective.matches(levelled)""")]),
+ ("B.r10.default_complete_named_empty", ["C05", "C18"], "src/span.rs", [
+   ("            emit_core::emit(&self.emitter, Empty, &self.ctxt, Empty, evt);", "            let no_filter = Empty;\n            let no_clock = Empty;\n            emit_core::emit(&self.emitter, no_filter, &self.ctxt, no_clock, evt);")]),
+ ("B.r10.render_sval_match", ["C16"], "core/src/template.rs", [
+   ("""        if let Some(v) = self.as_literal() {
+            sval_ref::stream_ref(stream, v)
+        } else {
+            sval::stream_display(stream, self)
+        }""", """        match self.as_literal() {
+            Some(v) => sval_ref::stream_ref(stream, v),
+            None => sval::stream_display(stream, self),
+        }""")]),
+ ("B.r10.http_request_hook_let", ["C12", "C07"], "emitter/otlp/src/client/http.rs", [
+   ("""            let res = send_request(
+                &self.metrics,
+                &mut sender,
+                &self.uri,
+                self.headers.iter().map(|(k, v)| (&**k, &**v)),
+                (self.request)(body)?,
+            )""", """            let framed = (self.request)(body)?;
+
+            let res = send_request(
+                &self.metrics,
+                &mut sender,
+                &self.uri,
+                self.headers.iter().map(|(k, v)| (&**k, &**v)),
+                framed,
+            )""")]),
+ ("B.r10.capture_id_let", ["C15", "C04"], "src/macro_hooks.rs", [
+   ("""impl CaptureSpanId for str {
+    fn capture(&self) -> Option<Value> {
+        Some(self.to_value())""", """impl CaptureSpanId for str {
+    fn capture(&self) -> Option<Value> {
+        let text = self.to_value();
+        Some(text)""")]),
+ ("B.r10.macro_attrs_iter", ["C19", "C16"], "macros/src/props.rs", [
+   ("        for attr in &fv.attrs {\n            if attr.is_cfg() {", "        for attr in fv.attrs.iter() {\n            if attr.is_cfg() {")]),
+]
+
 # formerly a documented limit (round 7): the two calls before the acknowledgement extracted into one helper
 MULTI += [
  ("B.file_sync_helper", ["C10", "C07", "C11"], "emitter/file/src/lib.rs", [
